@@ -135,6 +135,60 @@ def check_value_chars(ck):
         ck.ob("C07.value-chars", fi, r.ast, not bad, "every value returned is character-checked (or converted from a non-text type)")
 
 
+def check_value_exact(ck):
+    """A header value is either rejected or used exactly as supplied: _convert_header_value is evaluated concretely on
+    sample values.  A value carrying CR/LF/NUL anywhere (also at the ends, where a strip() would silently remove it)
+    must not be returned; a legal value — including leading/trailing blanks and tabs — must come back unchanged
+    (bytes: decoded as latin-1, nothing else)."""
+    fi = F(ck, WEB, RH + "._convert_header_value")
+    ps = [p for p in fi.params() if p != "self"]
+    if len(ps) != 1:
+        raise AnalysisError("_convert_header_value signature changed")
+
+    def rx_of(expr):
+        try:
+            return resolve_pattern(ck.repo, fi, expr)
+        except AnalysisError:
+            return None
+
+    base = module_constants(fi)
+    base.update(class_constants(ck.repo, WEB, RH))
+    base.update(class_constants(ck.repo, WEB, RH, prefix=RH + "."))
+    rets = fi.cfg.stmt_nodes(lambda n: n.kind == "stmt" and isinstance(n.ast, ast.Return))
+    raises = fi.cfg.stmt_nodes(lambda n: n.kind == "stmt" and isinstance(n.ast, ast.Raise))
+    known = {m: None for m in pure_self_methods(ck.repo, WEB, RH)}
+    bad = ["x\r\n", "\r\nx", "a\nb", "a\rb", "a\x00b", "x\n", "\x00x", b"x\r\n", b"a\nb"]
+    good = ["plain", " lead", "trail ", "\ttab\t", "a b", "caf\xe9", b"bytes ", b" \xe9"]
+    n_dec = 0
+    for value in bad + good:
+        init = dict(base)
+        init.update({ps[0]: value, "@resolve": make_resolver(ck.repo, WEB, RH), "@rx": rx_of})
+        states = peval(fi.cfg, init, known_self_methods=known, track=lambda t: True)
+        returned = [(r, env) for r in rets for _f, env in states.get(r.id, []) if not env.get("@undecided")]
+        raised = [(r, env) for r in raises for _f, env in states.get(r.id, []) if not env.get("@undecided")]
+        if not returned and not raised:
+            continue  # nothing decided for this sample: no evidence either way
+        n_dec += 1
+        if value in bad:
+            for r, env in returned:
+                got = try_fold(r.ast.value, env) if r.ast.value is not None else None
+                ck.ob("C07.value-exact", fi, r.ast, False, "a value containing CR, LF or NUL (%r) is rejected, not returned (returned %r)" % (value, got),
+                      construct="value with a control character at %s accepted" % ("an end" if (value[:1] in ("\r", "\n", "\x00", b"\r", b"\n") or value[-1:] in ("\r", "\n", "\x00", b"\r", b"\n")) else "the middle"))
+            if not returned:
+                ck.ob("C07.value-exact", fi, fi.node, True, "a value containing CR, LF or NUL (%r) is rejected" % (value,))
+        else:
+            want = value if isinstance(value, str) else value.decode("latin1")
+            for r, env in returned:
+                got = try_fold(r.ast.value, env) if r.ast.value is not None else None
+                if got is UNK:
+                    continue
+                ck.ob("C07.value-exact", fi, r.ast, got == want, "a legal value is used exactly as supplied (%r -> %r)" % (value, got), construct="legal value altered before it is sent")
+            if raised and not returned:
+                ck.ob("C07.value-exact", fi, raised[0][0].ast, False, "a legal value (%r) is accepted" % (value,), construct="legal value rejected")
+    if n_dec < 6:
+        raise AnalysisError("_convert_header_value could be evaluated concretely for only %d of %d sample values" % (n_dec, len(bad) + len(good)))
+
+
 def _header_writers(ck):
     """(fi, cfg node, kind, name expr, value expr) for every direct write to self._headers in RequestHandler."""
     from ..rules import callers_of, references_to
@@ -580,12 +634,14 @@ def check_cookie(ck, writers):
 
 def run(ck):
     ck.rule("C07.value-chars", "_convert_header_value: every text value returned passed a regex guard whose language (in the mode used) excludes NUL, CR and LF")
+    ck.rule("C07.value-exact", "_convert_header_value, evaluated on sample values: anything containing CR/LF/NUL (also at the ends) is rejected; a legal value is returned exactly as supplied — no lossy rewriting between the supplied, the checked and the sent value")
     ck.rule("C07.value-sanitized", "every caller-supplied value written to RequestHandler._headers goes through _convert_header_value; redirect/Set-Cookie use the sanitising APIs")
     ck.rule("C07.name-ctl", "a caller-supplied header name is validated (in the API or in the HTTPHeaders method it lands in) for each of NUL/CR/LF the final guard does not detect")
     ck.rule("C07.reason", "the reason phrase reaches _reason/the status line only validated by a regex excluding NUL/CR/LF or replaced by a constant")
     ck.rule("C07.final-guard", "write_headers tests every line of the header block with a guard that detects CR and LF anywhere, aborts on failure, and writes only what was tested")
     ck.rule("C07.cookie-ctl", "cookie name/attributes reach the wire only inside a Set-Cookie value that passes the header value check, or are checked for NUL/CR/LF in set_cookie")
     check_value_chars(ck)
+    check_value_exact(ck)
     writers = _header_writers(ck)
     check_value_sanitized(ck, writers)
     detected = _final_guard(ck)
@@ -678,6 +734,7 @@ MUTANTS = [
     ("server side scans only the status line (seeded C07-adv3)", _in(H1, "HTTP1Connection.write_headers", replace_stmt(lambda st: isinstance(st, ast.For) and "CR_OR_LF_RE" in _u(st), lambda st: [ast.For(target=st.target, iter=parse_expr("lines if self.is_client else lines[:1]"), body=st.body, orelse=[])])), "C07.final-guard"),
     ("per-line guard replaced by a CRLF count on the serialized block (seeded C07-adv4: a lone CR or LF passes)", _in(H1, "HTTP1Connection.write_headers", lambda root: _block_level_guard(root)), "C07.final-guard"),
     ("header lines scanned by zip(headers, lines[1:]) — one per distinct name, trailing lines unscanned (seeded C07-adv5)", _in(H1, "HTTP1Connection.write_headers", lambda root: _zip_scan(root)), "C07.final-guard"),
+    ("header value stripped before the character check (seeded C07-adv6: 'x\\r\\n' silently rewritten)", _in(WEB, RH + "._convert_header_value", lambda root: _strip_before_check(root)), "C07.value-exact"),
     ("final guard only logs", _in(H1, "HTTP1Connection.write_headers", _guard_logs_only), "C07.final-guard"),
     ("send_error stores the reason itself", _in(WEB, RH + ".send_error", replace_stmt(lambda st: "self.set_status(status_code, reason=reason)" in _u(st), lambda st: [parse_stmt("self._status_code = status_code"), parse_stmt("self._reason = reason or 'Unknown'")])), "C07.reason"),
 ]
@@ -732,4 +789,13 @@ def _zip_scan(root):
                                    iter=parse_expr("zip(%s, %s[1:])" % (ps[2], lst)), body=st.body, orelse=[])
                     body[i:i + 1] = [first, loop]
                     return True
+    return False
+
+
+def _strip_before_check(root):
+    body = root.body
+    for i, st in enumerate(body):
+        if isinstance(st, ast.If) and "_VALID_HEADER_CHARS" in _u(st.test):
+            body.insert(i, parse_stmt("retval = retval.strip()"))
+            return True
     return False
